@@ -28,12 +28,12 @@ Fixpoint dec_dexpr (fuel : nat) (t : itree) : option dexpr :=
   end.
 
 (* compare an implementation result with the model's:
-   [valid_impl, size_impl, size_model, partial_model, diff, valid_model, minimal size of the model result] *)
+   [valid_impl, size_impl, size_model, partial_model, diff, valid_model, [size, partial flag] of the minimal PARTIAL DFA of the model result] *)
 Definition cmp_result (impl : dfa) (r : res dfa) : itree :=
   match r with
   | Ok m => L [I 1%N; L [Ib (valid_dfa impl); In_ (size impl); In_ (size m); Ib (d_partial m);
                          enc_res (enc_opt enc_nats) (dfa_diff impl m); Ib (valid_dfa m);
-                         enc_res In_ (bind (minify m) (fun r => Ok (size r)))]]
+                         enc_res (fun r => L [In_ (size r); Ib (d_partial r)]) (to_partial_min m)]]
   | Err e => L [I 0%N; In_ (err_code e)]
   end.
 
